@@ -88,6 +88,14 @@ func c13Harness(cfg *Cfg) func(x *mc.Exec) {
 			firstFlate = append(firstFlate, c13life{"fault:" + strings.TrimSuffix(f.name, " bare"), f.stream, nil})
 		}
 	}
+	if cfg.Thorough {
+		// thorough: every short corpus stream cut at every byte as a first life (read to its error)
+		for _, cs := range shortCorpus(g) {
+			for c := 1; c < len(cs.stream); c++ {
+				firstFlate = append(firstFlate, c13life{fmt.Sprintf("fault:cut(%s,%d)", cs.name, c), cs.stream[:c], nil})
+			}
+		}
+	}
 	var secondFlate []namedStream
 	secondFlate = append(secondFlate, shortCorpus(g)...)
 	secondFlate = append(secondFlate, backrefStreams()...)
@@ -112,6 +120,12 @@ func c13Harness(cfg *Cfg) func(x *mc.Exec) {
 	}
 	dictText := []byte("hello world, hello dictionary, hello again and again")
 	zl = append(zl, container{name: "zlib-dict-needed-but-missing", kind: RK{Kind: "zlib"}, bytes: zlibStream(dictText, 6, dict20)})
+	if cfg.Thorough {
+		// a dictionary longer than the 32 KiB window, and a stream whose matches reach into it
+		d40 := dict40k()
+		pl := append(append([]byte{}, d40[100:3000]...), []byte(" and fresh text after the dictionary part")...)
+		zl = append(zl, container{name: "zlib-dict40000", kind: RK{Kind: "zlib", Dict: d40}, bytes: zlibStream(pl, 6, d40), payload: pl})
+	}
 	histories := []string{"nothing", "1 byte", "10 bytes", "all-but-last", "to-end", "65535 bytes", "65536 bytes (output window full)"}
 	pols := []env.ReadPolicy{env.PolicyAll, env.Policy7}
 	firstRead := func(r io.Reader, hist int, total int) {
